@@ -130,6 +130,7 @@ static void build_cfg_list(void)
 			}
 		}
 		if (T) { add_cfg(3, 0, 5000, 2500, 5, 1, 1); add_cfg(3, 0, 5000, 5000, 4, 7, 1); }
+		if (!strcmp(g_run.prop, "C03")) { add_cfg(3, 0, 1200, 9000, 4, 16807, 1); add_cfg(3, 0, 12000, 12000, 3, 1, 1); }
 		if (!strcmp(g_run.prop, "C04")) {
 			/* staircases longer than 2^12 (and, in thorough, 2^14) equations: the depth of one peeling chain is bounded by n-k only */
 			add_cfg(3, 0, 6000, 6000, 3, 1, 1); add_cfg(3, 0, 1200, 9000, 4, 16807, 1);
@@ -256,9 +257,9 @@ static void run_chain(const block_t *b, uint64_t h, rng_t *r)
 	if (t == ~0u) return;
 	uint32_t nl = 1 + (uint32_t)(h % 3), lost[3], first[3], got = 0;
 	for (int tries = 0; tries < 64 && got < nl; tries++) {
-		/* of 32 candidates keep the one whose first equation is deepest */
+		/* of 128 candidates keep the one whose first equation is deepest */
 		uint32_t best = ~0u, bestq = 0;
-		for (int q = 0; q < 32; q++) {
+		for (int q = 0; q < 128; q++) {
 			uint32_t s = rng_below(r, k); if (s == t) continue;
 			uint32_t fe = ~0u; for (unsigned x = sy->sy_off[s]; x < sy->sy_off[s + 1]; x++) if (sy->sy_eq[x] < fe) fe = sy->sy_eq[x];
 			if (fe == 0 || fe == ~0u) continue;
@@ -277,7 +278,7 @@ static void run_chain(const block_t *b, uint64_t h, rng_t *r)
 	g_sub[m++] = t;
 	for (uint32_t i = 0; i < got; i++) g_sub[m++] = k + first[i];
 	hist_t hi; memset(&hi, 0, sizeof hi);
-	hi.api = 0; hi.finish = 0; hi.cbmode = (h >> 11) % 3 == 0 ? 1 + (int)((h >> 17) % 5) : 0;
+	hi.api = 0; hi.finish = (g_pf.mon & MON_C03) ? 1 : 0; hi.cbmode = (g_pf.mon & MON_C03) ? 0 : ((h >> 11) % 3 == 0 ? 1 + (int)((h >> 17) % 5) : 0);   /* C03: the chain, then of_finish_decoding */
 	hi.nsub = m; hi.sub = g_sub; hi.snap_every = n <= 300 ? 1 : (int)((n + 9) / 10);
 	if (!rep_case("chain codec=%s k=%u r=%u L=%u N1=%u seed=%u cb=%d t=%u lost=%u first-equations=%u..%u nsub=%u", codec_name(c), c->k, c->r, c->L, c->N1, c->seed, hi.cbmode, t, got, first[0], first[got - 1], m)) return;
 	hres_t res;
@@ -416,7 +417,7 @@ int p_codec(void)
 				}
 				block_free(&bu);
 			}
-			if ((g_pf.mon & MON_C04) && ce->large && c.codec == 3)
+			if ((g_pf.mon & (MON_C04 | MON_C03)) && ce->large && c.codec == 3 && ((g_pf.mon & MON_C04) || n > 3000))
 				for (unsigned s = 0; s < (T ? 24u : 6u); s++) run_chain(&b, hash64(uh, 7000 + s), &r);
 			free(inset);
 			block_free(&b);
